@@ -15,6 +15,8 @@ NOT_APPLICABLE = {
 
 SETUP = ("/venv/bin/python -c 'import hypothesis' 2>/dev/null || "
          "/venv/bin/pip install -q --no-index --find-links /opt/veriftools/wheels --target /verif/.deps hypothesis; "
+         "PYTHONPATH=/verif/.deps /venv/bin/python -c 'import atheris' 2>/dev/null || "
+         "/venv/bin/pip install -q --no-index --find-links /opt/veriftools/wheels --target /verif/.deps atheris || true; "
          "mkdir -p /verif/evidence /verif/replays/found /verif/.tmp; "
          "PYTHONPATH=/verif/.deps /venv/bin/python -c 'import hypothesis, numpy, scipy; print(\"setup ok\", hypothesis.__version__)'")
 
